@@ -53,7 +53,8 @@ def enum_terms(n, classic, texts, memo=None, hang=True, ann=True):
     else:
         r = []
         for d in enum_terms(n - 1, classic, texts, memo, hang, ann):
-            r += [('grp', d), ('nest', 2, d), ('ab', d), ('align', d)]
+            # (a negative offset dedents: offsets are summed, never clamped)
+            r += [('grp', d), ('nest', 2, d), ('nest', -3, d), ('ab', d), ('align', d)]
             if not classic:
                 if ann:
                     r.append(('ann', 7, d))
@@ -78,6 +79,27 @@ def enum_terms(n, classic, texts, memo=None, hang=True, ann=True):
                             r.append(('fill',) + kids)
     memo[key] = r
     return r
+
+
+def structured_terms(classic):
+    """Two-level family: triples / pairs of small 'pieces' under a group or a concat. Reaches
+    documents of up to ~13 nodes with the shapes that matter (a hardline or forced break before a
+    nested group, a nested group after text, aligned continuation lines ...)."""
+    B = ('t', 'bb')
+    L = ('line',)
+    pieces = [('t', 'a'), B, L, ('soft',), ('hl',), ('grp', L), ('grp', ('cat', B, L)), ('grp', ('cat', B, L, B)),
+              ('nest', 2, L), ('nest', 2, ('grp', ('cat', B, L, B))), ('ab', ('t', 'a')), ('align', ('cat', B, L, B))]
+    if not classic:
+        pieces += [('fill', B, L, B), ('ann', 7, B), ('fc', ('t', 'a'), B)]
+    out = []
+    for p in pieces:
+        for q in pieces:
+            out.append(('cat', p, q))
+            out.append(('grp', ('cat', p, q)))
+            for r in pieces:
+                out.append(('grp', ('cat', p, q, r)))
+                out.append(('nest', 2, ('cat', p, q, r)))
+    return out
 
 
 def compositions(total, k):
@@ -110,7 +132,7 @@ def random_term(rng, size, classic, texts=TEXTS_FULL, depth=0):
     if k in ('grp', 'ab', 'align'):
         return (k, random_term(rng, size - 1, classic, texts, depth + 1))
     if k == 'nest':
-        return ('nest', rng.choice([1, 2, 4]), random_term(rng, size - 1, classic, texts, depth + 1))
+        return ('nest', rng.choice([1, 2, 4, 2, -1, -3]), random_term(rng, size - 1, classic, texts, depth + 1))
     if k == 'hang':
         return ('hang', rng.choice([1, 2]), random_term(rng, size - 1, classic, texts, depth + 1))
     if k == 'ann':
